@@ -5,7 +5,7 @@
    (correspondence), as are includes, enum merging, determinism of the written files. *)
 From Coq Require Import List NArith ZArith.
 Import ListNotations.
-From GM Require Import Bytes Result Codec Layout LayoutSpec Enum Gen GenProofs InitSpec GenSpec.
+From GM Require Import Bytes Result Codec Layout LayoutSpec Enum Gen GenProofs InitSpec GenSpec GenEnumProofs.
 Local Open Scope N_scope.
 
 (* every valid message definition — name [A-Z][A-Z0-9_]*, fields of any MAVLink scalar type, arrays
@@ -49,6 +49,12 @@ Print Assumptions C18_field_type_correct.
 Theorem C18_decimal_enum_value : forall n, n < two64 -> parse_enum_value (utoa n) = Some n.
 Proof. exact decimal_value_parsed. Qed.
 Print Assumptions C18_decimal_enum_value.
+Theorem C18_hex_enum_value : forall n, n < two64 -> parse_enum_value ([48; 120] ++ render_base 17 16 n) = Some n.
+Proof. exact hex_value_parsed. Qed.
+Print Assumptions C18_hex_enum_value.
+Theorem C18_binary_enum_value : forall n, n < two64 -> parse_enum_value ([48; 98] ++ render_base 65 2 n) = Some n.
+Proof. exact binary_value_parsed. Qed.
+Print Assumptions C18_binary_enum_value.
 Theorem C18_power_enum_value : forall x y, x < two64 -> y < two64 -> uint_pow x y = (x ^ y) mod two64.
 Proof. exact uint_pow_spec. Qed.
 Print Assumptions C18_power_enum_value.
